@@ -125,15 +125,23 @@ fn kad_inbound() -> SimResult {
         match choose(10) {
             0..=3 => {
                 serial += 1;
-                let value = format!("v{serial}").into_bytes();
-                let publisher = match choose(5) {
+                let before = server.with(|b| b.store_mut().get(&rkey).map(|r| r.into_owned()));
+                let mut value = format!("v{serial}").into_bytes();
+                let mut publisher = match choose(5) {
                     0 => None,
                     1 => Some(speer),
                     2 => Some(other),
                     _ => Some(me),
                 };
+                // replication / republishing: the record the server already holds arrives again with another lifetime
+                if let (Some(b), true) = (&before, choose(3) == 0) {
+                    if b.publisher != Some(speer) {
+                        value = b.value.clone();
+                        publisher = b.publisher;
+                        probe("same-record-sent-again");
+                    }
+                }
                 let ttl = [0u32, 0, 1, 2, 3, 30, 3600][choose(7)];
-                let before = server.with(|b| b.store_mut().get(&rkey).map(|r| r.into_owned()));
                 tag += 1;
                 clients[c].node.with(|b| b.open(speer, None, OpenReq { tag, proto: PROTO.into(), send: vec![put_value(&key, &value, publisher.as_ref(), ttl)], read: 1, after: After::Close }));
                 let t_sent = elapsed();
